@@ -273,6 +273,11 @@ class C13:
                         neg(vline(x, msgs, [e + d, s, v]), "e+-1"); neg(vline(x, msgs, [e, s + d, v]), "s+-1"); neg(vline(x, msgs, [e, s, (v + d)]), "v+-1")
                     neg(vline(x, msgs, [0, s, v]), "e=0"); neg(vline(x, msgs, [e, s, 0]), "v=0"); neg(vline(x, msgs, [e, 0, v]), "s=0")
                     neg(vline(x, msgs, [e, s, v + N]), "v+N"); neg(vline(x, msgs, [e, s, v - N]), "v-N")
+                    # the exponent shifted by multiples of the group order (the key holder's edit): v^(e + k phi) = v^e, so only the
+                    # bound e < 2^le stands between this edit and acceptance -- in BOTH verifiers
+                    for k_ in (1, 2, 7):
+                        neg(vline(x, msgs, [e + k_ * phi, s, v]), "e+k*phi")
+                    neg("clverify1 %s %s %s %d %s" % (suite, zl(x.pk), zl(x.bases), msgs[0], zl([s1[0] + phi, s1[1], s1[2]])), "e+k*phi(single)") if r1.status == "OK" else None
                     neg(vline(x, msgs, [e + 2**le, s, v]), "e+2^le"); neg(vline(x, msgs, [-e, s, v]), "-e")
                     neg(vline(x, msgs, sig, pk=[N, x.pk[2], x.pk[1]]), "other-key(b<->c)")
                     S.run(lines, expect=reject, label=labs)
